@@ -6,6 +6,8 @@ Import ListNotations.
 Require Import Clarabel.Base.Ops Clarabel.Qdldl.Model.
 Require Export Clarabel.Qdldl.SpecPerm Clarabel.Qdldl.SpecPermSym Clarabel.Qdldl.SpecFactor
         Clarabel.Qdldl.SpecSolve Clarabel.Qdldl.SpecRefactor.
+(* further parts, imported directly by Props/C12.v: SpecBounds, SpecChk, SpecFactorCorrect, SpecEtree,
+   SpecFuel, SpecPermNoDup, SpecLnz, SpecPermEntries, SpecEndToEnd *)
 
 (** refactor after any batch of point updates of input entries equals factoring the updated
     input from scratch, as values of type [res fact] — for ANY scalar type (binary64 included).
